@@ -4,4 +4,6 @@ cd "$(dirname "$0")"
 tier=${1:-quick}
 ids=$(python3 -c "import json;print(' '.join(c['property_id'] for c in json.load(open('MANIFEST.json'))['checks']))")
 mkdir -p .logs
-echo $ids | tr ' ' '\n' | xargs -P 4 -I{} sh -c "./check.sh {} $tier > .logs/{}.log 2>&1; echo \"{} exit=\$? \$(tail -1 .logs/{}.log | cut -c1-200)\""
+# the thorough tier runs without cache and with long timeouts: fewer checks side by side
+par=4; [ "$tier" = thorough ] && par=2
+echo $ids | tr ' ' '\n' | xargs -P $par -I{} sh -c "./check.sh {} $tier > .logs/{}.log 2>&1; echo \"{} exit=\$? \$(tail -1 .logs/{}.log | cut -c1-200)\""
